@@ -15,10 +15,21 @@ silenced by their dry-run flag.  Each row is read off the source:
   commands/copy.rs, merge.rs    write packs / index / snapshots into the (destination) repository
   blob/tree/modify.rs           `TreeModifier` `dry_run`: `save_tree`/`finalize` write nothing
   backend/dry_run.rs            `DryRunBackend`: `write_bytes`/`remove` are no-ops when `dry_run`
+  commands/init.rs              `init` (refused when a config file exists — `Repository::init`), `init_with_config`
+                                (NOT guarded: key + config are written over an existing repository), `init_hot`
+  commands/restore.rs           `prepare_restore(…, dry_run)`: reads only (the flag is about the local destination)
+  commands/merge.rs             `merge_snapshots` / `merge_trees` never remove (the CLI's `merge --delete` calls
+                                `delete_snapshots` afterwards)
 
-`allowed` is the over-approximation the theorems speak about; `expected` is the exact observation the
-traffic check (`harness/src/c15.rs`) compares with, for its fixed scenario (two snapshots, intact
-repository), tracking the append-only flag, the extra-verify flag and the number of snapshots.
+Completeness of the table is checked, not trusted: `Cmd.methods` names the public `Repository` methods a row
+stands for, `readOnlyMethods` is the reviewed list of constructors / accessors / readers, and `Props/C15` proves
+that together they are exactly `Rustic.Gen.repositoryPublicFns`, the list tools/c15_api_table.py extracts from
+repository.rs on every run (likewise for every `dry_run` parameter / option field).
+
+`run` is the over-approximation the theorems speak about; `expected` is the exact observation the
+traffic check (`harness/src/c15.rs`) compares with, for its scenarios (two snapshots; plain or hot/cold;
+intact, or damaged = coarse observation), tracking the append-only flag, the extra-verify flag, the number of
+snapshots and whether a key was added.
 Import-free.
 -/
 namespace Rustic.CommandTable
@@ -37,6 +48,11 @@ def Op.isProtectedRemoval : Op → Bool
   | .remove .snapshot => true
   | .remove .index => true
   | .remove .pack => true
+  | _ => false
+
+/-- a write that is not an append (may replace a file of that type). -/
+def Op.isWrite : Op → Bool
+  | .write _ => true
   | _ => false
 
 inductive ConfigChange where
@@ -61,12 +77,17 @@ inductive Cmd where
   | copyInto
   | mergeSnapshots
   | repairHotcold (dryRun : Bool)
-  | readOnly                    -- check, restore, ls, dump, cat, get_snapshots, warm_up, prepare_restore …
+  | prepareRestore (dryRun : Bool)
+  | init                        -- `init` over an existing repository
+  | initWithConfig (newAppendOnly : Bool)     -- `init_with_config` over an existing repository; flag of the new config
+  | initHot
+  | readOnly                    -- check, restore, ls, dump, cat, get_snapshots, warm_up … (`readOnlyMethods`)
   deriving Repr, DecidableEq
 
 inductive ErrKind where
   | appendOnly
   | repository
+  | configuration
   deriving Repr, DecidableEq
 
 inductive Outcome where
@@ -76,8 +97,12 @@ inductive Outcome where
 
 def dataWrites : List Op := [.write .pack, .write .index]
 
-/-- `run appendOnly cmd` on a plain (not hot/cold) repository. -/
-def run (appendOnly : Bool) : Cmd → Outcome
+/-- what a hot/cold repair may copy from one store to the other (files missing there; never a replacement). -/
+def hotcoldCopies : List Op := [.write .config, .write .index, .write .key, .write .snapshot, .write .pack]
+
+/-- `run hotCold appendOnly cmd` on an existing repository (`hotCold`: it has a hot part; the operations of both
+stores are merged). -/
+def run (hotCold appendOnly : Bool) : Cmd → Outcome
   | .backup dry => .runs (if dry then [] else dataWrites ++ [.write .snapshot])
   | .deleteSnapshots => if appendOnly then .refused .repository else .runs [.remove .snapshot]
   | .saveSnapshots => .runs [.write .snapshot]
@@ -98,7 +123,12 @@ def run (appendOnly : Bool) : Cmd → Outcome
   | .deleteKey => .runs [.remove .key]
   | .copyInto => .runs (dataWrites ++ [.write .snapshot])
   | .mergeSnapshots => .runs (dataWrites ++ [.write .snapshot])
-  | .repairHotcold _ => .refused .repository      -- no hot part
+  | .repairHotcold dry => if !hotCold then .refused .repository      -- no hot part
+      else .runs (if dry then [] else hotcoldCopies)
+  | .prepareRestore _ => .runs []
+  | .init => .refused .configuration              -- a config file exists
+  | .initWithConfig _ => .runs [.write .key, .write .config]
+  | .initHot => .runs (if hotCold then [.write .config] else [])
   | .readOnly => .runs []
 
 def Cmd.isDryRun : Cmd → Bool
@@ -108,7 +138,74 @@ def Cmd.isDryRun : Cmd → Bool
   | .rewriteSnapshots _ d => d
   | .rewriteTrees _ d => d
   | .repairHotcold d => d
+  | .prepareRestore d => d
   | _ => false
+
+/-! ### the table's rows and the public API of `Repository` -/
+
+/-- the public `Repository` methods a row stands for. -/
+def Cmd.methods : Cmd → List String
+  | .backup _ => ["backup", "archive"]
+  | .deleteSnapshots => ["delete_snapshots"]
+  | .saveSnapshots => ["save_snapshots"]
+  | .prunePlan => ["prune_plan"]
+  | .prune => ["prune"]
+  | .repairIndex _ => ["repair_index"]
+  | .repairSnapshots _ _ => ["repair_snapshots"]
+  | .rewriteSnapshots _ _ => ["rewrite_snapshots"]
+  | .rewriteTrees _ _ => ["rewrite_snapshots_and_trees"]
+  | .applyConfig _ => ["apply_config"]
+  | .addKey => ["add_key"]
+  | .deleteKey => ["delete_key"]
+  | .copyInto => ["copy"]
+  | .mergeSnapshots => ["merge_snapshots", "merge_trees"]
+  | .repairHotcold _ => ["repair_hotcold_except_packs", "repair_hotcold_packs"]
+  | .prepareRestore _ => ["prepare_restore"]
+  | .init => ["init"]
+  | .initWithConfig _ => ["init_with_config"]
+  | .initHot => ["init_hot"]
+  | .readOnly =>
+    -- REVIEWED list: constructors / state transitions (read config, keys, index), accessors, listing and reading
+    -- methods, progress helpers, `restore` (writes the local destination, never the repository), `warm_up`
+    -- (backend warm-up requests).  None of them calls `write_bytes` / `remove` on the repository.
+    ["new", "new_with_progress", "open", "open_only_cold", "to_indexed", "to_indexed_checked", "to_indexed_ids",
+     "to_indexed_ids_checked", "drop_index", "drop_data_from_index",
+     "config", "config_id", "key", "key_id", "progress_bytes", "progress_counter", "progress_hidden", "progress_spinner",
+     "list", "find_ids", "infos_files", "infos_index", "warm_up", "cat_file", "cat_blob", "cat_tree", "get_file",
+     "stream_files", "stream_files_list", "get_snapshot_from_str", "get_snapshots_from_strs", "get_snapshots",
+     "get_all_snapshots", "get_matching_snapshots", "update_snapshots", "update_all_snapshots",
+     "update_matching_snapshots", "relevant_copy_snapshots", "check", "check_with_trees", "get_index_entry",
+     "open_file", "read_file_at", "get_tree", "get_blob_cached", "node_from_path", "find_nodes_from_path",
+     "find_matching_nodes", "node_from_snapshot_path", "node_from_snapshot_and_path", "ls", "dump", "restore"]
+
+/-- one representative per row (the flags do not change `methods`). -/
+def allCmds : List Cmd :=
+  [.backup false, .deleteSnapshots, .saveSnapshots, .prunePlan, .prune, .repairIndex false, .repairSnapshots false false,
+   .rewriteSnapshots false false, .rewriteTrees false false, .applyConfig (.other false), .addKey, .deleteKey, .copyInto,
+   .mergeSnapshots, .repairHotcold false, .prepareRestore false, .init, .initWithConfig false, .initHot, .readOnly]
+
+def tableMethods : List String := allCmds.flatMap Cmd.methods
+
+/-- where a row's dry-run flag comes from: a `dry_run: bool` parameter of the method, or a `pub dry_run` option field. -/
+inductive DrySource where
+  | param
+  | field (site : String)
+  deriving Repr, DecidableEq
+
+def Cmd.drySource : Cmd → Option DrySource
+  | .backup _ => some (.field "commands/backup.rs:BackupOptions")
+  | .rewriteSnapshots _ _ => some (.field "commands/rewrite.rs:RewriteOptions")
+  | .rewriteTrees _ _ => some (.field "commands/rewrite.rs:RewriteOptions")
+  | .repairIndex _ => some .param
+  | .repairSnapshots _ _ => some .param
+  | .repairHotcold _ => some .param
+  | .prepareRestore _ => some .param
+  | _ => none
+
+def dryParamMethods : List String := (allCmds.filter (fun c => c.drySource == some .param)).flatMap Cmd.methods
+
+def dryFieldSites : List String :=
+  allCmds.filterMap (fun c => match c.drySource with | some (.field s) => some s | _ => none)
 
 /-! ### histories: the repository as a set of files, commands as conforming operation lists -/
 
@@ -134,6 +231,7 @@ def ConcreteOp.kind : ConcreteOp → Op
 structure State where
   appendOnly : Bool
   files : List File
+  hotCold : Bool := false
   deriving Repr
 
 def applyOp (files : List File) : ConcreteOp → List File
@@ -148,62 +246,101 @@ structure Exec where
 
 /-- the execution is one the table allows in state `s`. -/
 def conforms (s : State) (e : Exec) : Bool :=
-  match run s.appendOnly e.cmd with
+  match run s.hotCold s.appendOnly e.cmd with
   | .refused _ => e.ops.isEmpty
   | .runs allowed => e.ops.all (fun o => allowed.contains o.kind)
 
 def step (s : State) (e : Exec) : State :=
   { appendOnly :=
-      (match e.cmd, run s.appendOnly e.cmd with
+      (match e.cmd, run s.hotCold s.appendOnly e.cmd with
        | .applyConfig (.setAppendOnly b), .runs _ => b
+       | .initWithConfig b, .runs _ => b                    -- the stored config is replaced
        | _, _ => s.appendOnly),
-    files := e.ops.foldl applyOp s.files }
+    files := e.ops.foldl applyOp s.files,
+    hotCold := s.hotCold }
 
-/-! ### exact expectation for the traffic check's scenario -/
+/-! ### exact expectation for the traffic check's scenarios -/
 
 structure Scen where
   appendOnly : Bool := true
   extraVerifySet : Bool := false
   snapshots : Nat := 2
+  hotCold : Bool := false
+  damaged : Bool := false          -- every data pack lost before the flag was set: coarse observation
+  addedKey : Bool := false
+  aoUnset : Bool := false          -- the stored flag is `None` (after `reinit`), not `Some(false)`
   deriving Repr
 
 /-- `(result, shown kinds, next scenario state)`; `none` = unknown command token.  Kinds are shown as the
 harness canonicalises them: for commands without dry-run flag pack/index writes are dropped; while the
-repository is not append-only only `forget` and `config.*` show their kinds (`*` otherwise). -/
+repository is not append-only `prune*`, `repair_index*` and `repair_snap.delete*` show `*` (state dependent). -/
 def expected (s : Scen) (cmd : String) : Option (String × String × Scen) :=
   let on := s.appendOnly
-  let star (k : String) : String := if on then k else "*"
   let refusedAO : Option (String × String × Scen) := some ("err:AppendOnly", "-", s)
   let snapW : String := if s.snapshots > 0 then "w.snapshot" else "-"
+  let forgetW : String := if s.snapshots > 0 then "r.snapshot+w.snapshot" else "-"
   match cmd with
-  | "backup.new" | "backup.same" => some ("ok", star "w.snapshot", { s with snapshots := s.snapshots + 1 })
-  | "backup.dry.new" | "backup.dry.same" => some ("ok", star "-", s)
+  | "backup.new" | "backup.same" => some ("ok", "w.snapshot", { s with snapshots := s.snapshots + 1 })
+  | "backup.dry.new" | "backup.dry.same" => some ("ok", "-", s)
   | "forget" =>
     if on then some ("err:Repository", "-", s)
     else some ("ok", if s.snapshots > 0 then "r.snapshot" else "-", { s with snapshots := s.snapshots - 1 })
   | "prune" | "prune.instant" | "prune.all" => if on then refusedAO else some ("ok", "*", s)
-  | "prune_plan" => some ("ok", star "-", s)
+  | "prune_plan" => some ("ok", "-", s)
   | "repair_index" | "repair_index.dry" | "repair_index.readall" | "repair_index.readall.dry" =>
     if on then refusedAO else some ("ok", "*", s)
   | "repair_snap.delete" | "repair_snap.delete.dry" => if on then refusedAO else some ("ok", "*", s)
-  | "repair_snap.keep" | "repair_snap.keep.dry" => some ("ok", star "-", s)
-  | "rewrite.forget" | "rewtrees.forget" => if on then refusedAO else some ("ok", "*", s)
-  | "rewrite.forget.dry" | "rewtrees.forget.dry" => if on then refusedAO else some ("ok", "*", s)
-  | "rewrite.keep" | "rewtrees.keep" => some ("ok", star snapW, { s with snapshots := 2 * s.snapshots })
-  | "rewrite.keep.dry" | "rewtrees.keep.dry" => some ("ok", star "-", s)
+  | "repair_snap.keep" | "repair_snap.keep.dry" => some ("ok", "-", s)
+  | "rewrite.forget" | "rewtrees.forget" | "rewtrees.forget.excl" => if on then refusedAO else some ("ok", forgetW, s)
+  | "rewrite.forget.dry" | "rewtrees.forget.dry" | "rewtrees.forget.excl.dry" => if on then refusedAO else some ("ok", "-", s)
+  | "rewrite.keep" | "rewtrees.keep" | "rewtrees.keep.excl" => some ("ok", snapW, { s with snapshots := 2 * s.snapshots })
+  | "rewrite.keep.dry" | "rewtrees.keep.dry" | "rewtrees.keep.excl.dry" => some ("ok", "-", s)
+  | "merge" => some ("ok", "w.snapshot", { s with snapshots := s.snapshots + 1 })
+  | "merge.delete" =>
+    -- `merge_snapshots` of the two oldest, then `delete_snapshots` of them (refused on an append-only repository)
+    if on then some ("err:Repository", "w.snapshot", { s with snapshots := s.snapshots + 1 })
+    else some ("ok", if s.snapshots > 0 then "r.snapshot+w.snapshot" else "w.snapshot",
+               { s with snapshots := s.snapshots - min 2 s.snapshots + 1 })
   | "config.tg" => if on then refusedAO else some ("ok", "w.config", s)
   | "config.ev" =>
     if on then refusedAO
     else some ("ok", if s.extraVerifySet then "-" else "w.config", { s with extraVerifySet := true })
   | "config.none" => if on then refusedAO else some ("ok", "-", s)
-  | "config.ao1" => if on then refusedAO else some ("ok", "w.config", { s with appendOnly := true })
-  | "config.ao0" => if on then some ("ok", "w.config", { s with appendOnly := false }) else some ("ok", "-", s)
-  | "key.add" => some ("ok", star "w.key", s)
-  | "key.del" => some ("ok", star "r.key", s)
-  | "check" | "restore" => some ("ok", star "-", s)
-  | "hotcold" | "hotcold.packs" | "hotcold.dry" | "hotcold.packs.dry" => some ("err:Repository", star "-", s)
-  | "copy" => some ("ok", star "w.snapshot", { s with snapshots := s.snapshots + 1 })
+  | "config.ao1" => if on then refusedAO else some ("ok", "w.config", { s with appendOnly := true, aoUnset := false })
+  | "config.ao0" =>
+    if on then some ("ok", "w.config", { s with appendOnly := false })
+    else if s.aoUnset then some ("ok", "w.config", { s with aoUnset := false })     -- `None` becomes `Some(false)`
+    else some ("ok", "-", s)
+  | "key.add" => some ("ok", "w.key", { s with addedKey := true })
+  | "key.del" => if s.addedKey then some ("ok", "r.key", { s with addedKey := false }) else some ("skip", "-", s)
+  | "check" | "restore" | "readonly" | "restore.plan" | "restore.plan.dry" => some ("ok", "-", s)
+  | "hotcold" | "hotcold.packs" | "hotcold.dry" | "hotcold.packs.dry" =>
+    if s.hotCold then some ("ok", "-", s) else some ("err:Repository", "-", s)
+  | "copy" => some ("ok", "w.snapshot", { s with snapshots := s.snapshots + 1 })
+  | "init" => some ("err:Configuration", "-", s)
+  | "reinit" => some ("ok", "w.config", { s with appendOnly := false, aoUnset := true })
+  | "init_hot" => some ("ok", if s.hotCold then "w.config" else "-", s)
   | _ => none
+
+/-- coarse result on damaged setups (the harness applies the same mapping to the real result): refused by a guard,
+or ran (whatever the outcome).  `prune` = `prune_plan` + `prune`: the plan may fail before the guard is reached. -/
+def coarseResult (cmd res : String) : String :=
+  if res == "err:AppendOnly" || ((cmd == "forget" || cmd == "merge.delete") && res == "err:Repository") ||
+     (cmd.startsWith "prune" && cmd != "prune_plan" && res.startsWith "err:") then "refused" else "ran"
+
+def dropKind (drop kinds : String) : String :=
+  let ks := (kinds.splitOn "+").filter (fun k => k != drop && k != "-")
+  if ks.isEmpty then "-" else "+".intercalate ks
+
+/-- the observation line of one command (exact on intact setups, coarse on damaged ones). -/
+def observe (s : Scen) (cmd : String) : Option (String × Scen) :=
+  match expected s cmd with
+  | none => none
+  | some (res, kinds, s') =>
+    if s.damaged then
+      if !s.appendOnly && !(cmd.startsWith "config" || cmd == "reinit") then some (cmd ++ "=*:*", s')
+      else some (cmd ++ "=" ++ coarseResult cmd res ++ ":" ++ dropKind "w.snapshot" kinds, s')
+    else some (cmd ++ "=" ++ res ++ ":" ++ kinds, s')
 
 /-- the table row a harness token stands for (ties `expected` to `run` in `Props/C15`). -/
 def cmdOfToken (cmd : String) : Option Cmd :=
@@ -223,10 +360,11 @@ def cmdOfToken (cmd : String) : Option Cmd :=
   | "rewrite.forget.dry" => some (.rewriteSnapshots true true)
   | "rewrite.keep" => some (.rewriteSnapshots false false)
   | "rewrite.keep.dry" => some (.rewriteSnapshots false true)
-  | "rewtrees.forget" => some (.rewriteTrees true false)
-  | "rewtrees.forget.dry" => some (.rewriteTrees true true)
-  | "rewtrees.keep" => some (.rewriteTrees false false)
-  | "rewtrees.keep.dry" => some (.rewriteTrees false true)
+  | "rewtrees.forget" | "rewtrees.forget.excl" => some (.rewriteTrees true false)
+  | "rewtrees.forget.dry" | "rewtrees.forget.excl.dry" => some (.rewriteTrees true true)
+  | "rewtrees.keep" | "rewtrees.keep.excl" => some (.rewriteTrees false false)
+  | "rewtrees.keep.dry" | "rewtrees.keep.excl.dry" => some (.rewriteTrees false true)
+  | "merge" => some .mergeSnapshots
   | "config.tg" => some (.applyConfig (.other true))
   | "config.ev" => some (.applyConfig (.other true))
   | "config.none" => some (.applyConfig (.other false))
@@ -234,10 +372,90 @@ def cmdOfToken (cmd : String) : Option Cmd :=
   | "config.ao0" => some (.applyConfig (.setAppendOnly false))
   | "key.add" => some .addKey
   | "key.del" => some .deleteKey
-  | "check" | "restore" => some .readOnly
+  | "check" | "restore" | "readonly" => some .readOnly
+  | "restore.plan" => some (.prepareRestore false)
+  | "restore.plan.dry" => some (.prepareRestore true)
   | "hotcold" | "hotcold.packs" => some (.repairHotcold false)
   | "hotcold.dry" | "hotcold.packs.dry" => some (.repairHotcold true)
   | "copy" => some .copyInto
+  | "init" => some .init
+  | "reinit" => some (.initWithConfig false)
+  | "init_hot" => some .initHot
   | _ => none
+
+/-- `merge.delete` is two library calls: the rows of a token, in order. -/
+def cmdsOfToken (cmd : String) : Option (List Cmd) :=
+  if cmd == "merge.delete" then some [.mergeSnapshots, .deleteSnapshots] else (cmdOfToken cmd).map ([·])
+
+/-! ### dry-run flags with their non-dry twin (`c15 dryt`) -/
+
+def FileType.token : FileType → String
+  | .config => "config" | .index => "index" | .key => "key" | .snapshot => "snapshot" | .pack => "pack"
+
+def Op.token : Op → String
+  | .write t => "w." ++ t.token
+  | .remove t => "r." ++ t.token
+
+/-- kinds as the harness prints them (the lists below are written in the harness' sorted order). -/
+def showKinds (ops : List Op) : String := if ops.isEmpty then "-" else "+".intercalate (ops.map Op.token)
+
+/-- `(damage, dry command) ↦ (result, kinds)` of the NON-dry twin on the same repository, for the scenarios of the
+traffic check (what the dry run would have done; `w.pack`/`w.index` dropped for backups).  `none` = not a scenario. -/
+def dryTwin (damage cmd : String) : Option (String × List Op) :=
+  match damage, cmd with
+  | "none", "backup.dry.new" | "none", "backup.dry.same" | "hc", "backup.dry.new" | "hc", "backup.dry.same"
+  | "dmg", "backup.dry.same" => some ("ok", [.write .snapshot])
+  | "none", "rewrite.forget.dry" | "hc", "rewrite.forget.dry" => some ("ok", [.remove .snapshot, .write .snapshot])
+  | "none", "rewrite.keep.dry" | "hc", "rewrite.keep.dry" => some ("ok", [.write .snapshot])
+  -- a tree rewrite with default options clears the device id of every node: new trees even without an exclude
+  | "none", "rewtrees.forget.dry" | "none", "rewtrees.forget.excl.dry" | "hc", "rewtrees.forget.excl.dry" =>
+    some ("ok", [.remove .snapshot, .write .index, .write .pack, .write .snapshot])
+  | "none", "rewtrees.keep.dry" | "none", "rewtrees.keep.excl.dry" | "hc", "rewtrees.keep.excl.dry" =>
+    some ("ok", [.write .index, .write .pack, .write .snapshot])
+  | "none", "restore.plan.dry" | "hc", "restore.plan.dry" => some ("ok", [])
+  | "pack", "repair_index.dry" | "pack", "repair_index.readall.dry" | "index", "repair_index.readall.dry"
+  | "hcpack", "repair_index.dry" => some ("ok", [.remove .index, .write .index])
+  | "index", "repair_index.dry" | "hcindex", "repair_index.dry" => some ("ok", [.write .index])
+  | "dmg", "repair_snap.delete.dry" | "hcdmg", "repair_snap.delete.dry" =>
+    some ("ok", [.remove .snapshot, .write .index, .write .pack, .write .snapshot])
+  | "dmg", "repair_snap.keep.dry" | "hcdmg", "repair_snap.keep.dry" => some ("ok", [.write .index, .write .pack, .write .snapshot])
+  | "hcmiss", "hotcold.dry" => some ("ok", [.write .index, .write .snapshot])
+  | "hcmissp", "hotcold.packs.dry" => some ("ok", [.write .pack])
+  -- nothing to do (intact repository / the other half of the hot/cold repair) or no hot part
+  | "hc", "hotcold.dry" | "hc", "hotcold.packs.dry" | "hcmissp", "hotcold.dry" => some ("ok", [])
+  | "none", "repair_index.dry" | "none", "repair_snap.delete.dry" => some ("ok", [])
+  | "none", "hotcold.dry" | "none", "hotcold.packs.dry" => some ("err:Repository", [])
+  | _, _ => none
+
+def isHotColdDamage (damage : String) : Bool :=
+  damage == "hc" || damage == "hcdmg" || damage == "hcmiss" || damage == "hcmissp" || damage == "hcpack" ||
+  damage == "hcindex"
+
+/-- the row of a dry token with the dry-run flag cleared (the twin the harness runs). -/
+def Cmd.nonDry : Cmd → Cmd
+  | .backup _ => .backup false
+  | .repairIndex _ => .repairIndex false
+  | .repairSnapshots d _ => .repairSnapshots d false
+  | .rewriteSnapshots f _ => .rewriteSnapshots f false
+  | .rewriteTrees f _ => .rewriteTrees f false
+  | .repairHotcold _ => .repairHotcold false
+  | .prepareRestore _ => .prepareRestore false
+  | c => c
+
+/-- the `c15 dryt` scenarios the generator emits (`harness/src/c15.rs` `DRY_TWINS`). -/
+def dryTwinCases : List (String × String) :=
+  [("none", "backup.dry.new"), ("none", "backup.dry.same"), ("none", "rewrite.forget.dry"), ("none", "rewrite.keep.dry"),
+   ("none", "rewtrees.forget.dry"), ("none", "rewtrees.keep.dry"), ("none", "rewtrees.forget.excl.dry"),
+   ("none", "rewtrees.keep.excl.dry"), ("none", "restore.plan.dry"),
+   ("pack", "repair_index.dry"), ("pack", "repair_index.readall.dry"), ("index", "repair_index.dry"),
+   ("index", "repair_index.readall.dry"),
+   ("dmg", "repair_snap.delete.dry"), ("dmg", "repair_snap.keep.dry"), ("dmg", "backup.dry.same"),
+   ("hc", "backup.dry.new"), ("hc", "backup.dry.same"), ("hc", "rewrite.forget.dry"), ("hc", "rewrite.keep.dry"),
+   ("hc", "rewtrees.forget.excl.dry"), ("hc", "rewtrees.keep.excl.dry"), ("hc", "hotcold.dry"), ("hc", "hotcold.packs.dry"),
+   ("hc", "restore.plan.dry"),
+   ("hcdmg", "repair_snap.delete.dry"), ("hcdmg", "repair_snap.keep.dry"),
+   ("hcpack", "repair_index.dry"), ("hcindex", "repair_index.dry"),
+   ("hcmiss", "hotcold.dry"), ("hcmissp", "hotcold.packs.dry"), ("hcmissp", "hotcold.dry"),
+   ("none", "hotcold.dry"), ("none", "hotcold.packs.dry"), ("none", "repair_index.dry"), ("none", "repair_snap.delete.dry")]
 
 end Rustic.CommandTable
